@@ -26,6 +26,8 @@ def plan(tier, seed):
     shards.append({'name': 'cms-boundscheck', 'fn': 'shard_cms', 'args': {'part': 100}, 'env': {'NUMBA_BOUNDSCHECK': '1'}})
     for i in range(2 if tier == 'quick' else 16):
         shards.append({'name': 'counter-%d' % i, 'fn': 'shard_counter', 'args': {'part': i}})
+    for i in range(1 if tier == 'quick' else 4):
+        shards.append({'name': 'counter-in-pipeline-%d' % i, 'fn': 'shard_counter_pipeline', 'args': {'part': i}})
     return shards
 
 
@@ -141,3 +143,41 @@ def shard_counter(sh, part):
         for c2 in counters:
             sh.case((c2['bound'], core.h64(sorted(map(repr, c2['truth'].items())))), c2['hit'], 'counter/bound-%s-distinct' % ('below' if c2['bound'] < nk else ('equal' if c2['bound'] == nk else 'above')),
                     sample={'bound': c2['bound'], 'distinct_seen': len(c2['truth']), 'tracked': len(c2['c'].default_counter)} if t % 25 == 0 else None)
+
+
+def shard_counter_pipeline(sh, part):
+    """The bounded counters the product itself keeps (one per column, fed cell by cell by compute_cardinalities with the bound of
+    --max_unique_hist_constraint): after every mini-batch the same three claims against the exact recount of the cells fed so far."""
+    import pandas as pd
+    from vf import pipe
+    cr = pipe.fresh_core_ranking()
+    rng = sh.rng('counter-pipe', part)
+    for t in range(60 if sh.tier == 'quick' else 600):
+        bound = rng.choice([1, 2, 3, 5, 8, 20])
+        cols = ['h%d_%d_%d' % (part, t, j) for j in range(rng.randint(1, 3))]      # fresh column names: the product keys its counters by name
+        vocab = {c: ['v%d' % i for i in range(rng.choice([1, 2, bound - 1 or 1, bound, bound + 1, 3 * bound + 2]))] for c in cols}
+        truth = {c: Counter() for c in cols}
+        hit = False
+        for b in range(rng.randint(1, 5)):
+            n = rng.choice([1, 4, 11, 40])
+            data = {}
+            for c in cols:
+                if rng.random() < 0.4:      # repeats first, many new values afterwards (later parts of one batch meet a nearly full counter)
+                    k0 = rng.randint(1, n)
+                    data[c] = [vocab[c][0]] * k0 + [rng.choice(vocab[c]) for _ in range(n - k0)]
+                else:
+                    data[c] = [rng.choice(vocab[c]) for _ in range(n)]
+            df = pd.DataFrame(data, columns=cols)
+            ok, _ = sh.call('counter-never-overcounts', 'compute_cardinalities', cr.compute_cardinalities, df, pipe.NullPbar(), bound)
+            if not ok:
+                break
+            for c in cols:
+                truth[c].update(data[c])
+                got = dict(cr.GLOBAL_COUNTS_STORAGE[c].default_counter)
+                wit = lambda: {'bound': bound, 'column': c, 'batch': b + 1, 'rows_of_batch': data[c][:40], 'tracked': got, 'true_counts': dict(truth[c])}  # noqa: E731
+                sh.check('counter-never-overcounts', all(v <= truth[c].get(k, 0) for k, v in got.items()), 'pipeline:tracked-count-above-true-count', wit)
+                sh.check('counter-at-most-bound-keys', len(got) <= bound, 'pipeline:tracks-more-than-bound-keys', wit)
+                if len(truth[c]) < bound:
+                    sh.check('counter-exact-below-bound', got == dict(truth[c]), 'pipeline:inexact-below-bound', wit)
+                hit = hit or len(got) >= bound
+        sh.case(('counter-pipe', part, t), hit, 'counter-in-pipeline/' + ('bound-reached' if hit else 'below-bound'))
